@@ -92,14 +92,19 @@ func (r *streamRun) judge(x *X, w *World, m int, label string) string {
 	return fmt.Sprintf("s%d:ok", r.id)
 }
 
-func c09Body(nstreams int, modes []sysMode) func(x *X) {
+func c09Body(nstreams int, modes []sysMode) func(x *X) { return c09BodyR(nstreams, modes, false) }
+
+func c09BodyR(nstreams int, modes []sysMode, reduced bool) func(x *X) {
 	return func(x *X) {
 		mode := modes[x.Choose(len(modes))]
 		push := x.Choose(3)
 		m := 1 + x.Choose(2)
 		writeFirst := x.Choose(2) == 1
-		srvPipe := x.Choose(2) == 1    // server pipelining
-		gatedUnary := x.Choose(2) == 1 // a unary call is executing while the streams are opened and used
+		srvPipe, gatedUnary := false, false
+		if !reduced {
+			srvPipe = x.Choose(2) == 1    // server pipelining
+			gatedUnary = x.Choose(2) == 1 // a unary call is executing while the streams are opened and used
+		}
 		s := newSys(mode, srvOpts{bufSize: 64, pipelining: srvPipe}, cliOpts{bufSize: 64})
 		s.w.pushN = push
 		flags := byte(0)
